@@ -1393,6 +1393,161 @@ def w_wrap(cases):
     return out
 
 
+# --------------------------------------------------------------------------- leg D5: where oe comes from
+OE_SOURCES = ("default", "free", "c0", "c1", "s0", "s1")     # Const(0,1), Const(1,1), C(2,2)[0] (=0), C(2,2)[1] (=1)
+
+
+def _oe_build(case):
+    from amaranth.hdl import Module, ClockDomain, IOPort, Signal, Const, IOBufferInstance
+    from amaranth.lib import io
+    kind, w, mask, cls, bufdir, src = case["kind"], case["w"], case["mask"], case["cls"], case["bufdir"], case["oe"]
+    inv = tuple(bool((mask >> j) & 1) for j in range(w))
+    if kind == "se":
+        iop = {"io": IOPort(w, name="po")}
+    else:
+        iop = {"p": IOPort(w, name="pop"), "n": IOPort(w, name="pon")}
+    m = Module()
+    m.domains.sync = cd = ClockDomain("sync")
+    sig = {"o": Signal(w, name="s_o")}
+    if bufdir == "io":
+        sig["i"] = Signal(w, name="s_i")
+    oe_val = {"c0": Const(0, 1), "c1": Const(1, 1), "s0": Const(2, 2)[0], "s1": Const(2, 2)[1]}.get(src)
+    if src == "free":
+        sig["oe"] = oe_val = Signal(1, name="s_oe")
+    if cls == "IOBufferInstance":
+        kw = {"o": sig["o"]}
+        if oe_val is not None:
+            kw["oe"] = oe_val
+        if bufdir == "io":
+            kw["i"] = sig["i"]
+        m.submodules.buf = IOBufferInstance(iop["io"], **kw)
+    else:
+        port = (io.SingleEndedPort(iop["io"], invert=inv) if kind == "se" else io.DifferentialPort(iop["p"], iop["n"], invert=inv))
+        buf = getattr(io, cls)(bufdir, port)
+        m.submodules.buf = buf
+        m.d.comb += buf.o.eq(sig["o"])
+        if oe_val is not None:
+            m.d.comb += buf.oe.eq(oe_val)
+        if bufdir == "io":
+            m.d.comb += sig["i"].eq(buf.i)
+    ports = [sig["o"]] + ([sig["i"]] if "i" in sig else []) + ([sig["oe"]] if "oe" in sig else []) + [cd.clk, cd.rst]
+    return m, ports, sig, iop, cd
+
+
+def _oe_case(case, out):
+    from amaranth.hdl._ir import Fragment, build_netlist
+    from amaranth.back import rtlil
+    from ..ref.c18_netlist import NirEval, RtlilEval, parse_rtlil
+    kind, w, mask, cls, bufdir, src = case["kind"], case["w"], case["mask"], case["cls"], case["bufdir"], case["oe"]
+    tag = f"{cls}({bufdir}) on a {kind} port (width {w}, invert mask {mask:0{w}b}) with oe from '{src}'"
+    sigbase = f"{cls}:{bufdir}:{kind}:w{w}:m{mask:0{w}b}:oe={src}"
+    out["cov"]["evaluations"] += 1
+    _inc(out, "oe_designs")
+    if src in ("c0", "s0") or (src == "default" and bufdir == "io" and cls != "IOBufferInstance"):
+        _inc(out, "oe_constant_zero_designs")
+        out["cov"]["distinct_nontrivial"] += 1
+    if src in ("c1", "s1", "default") and bufdir == "o":
+        _inc(out, "oe_constant_one_output_designs")
+    m, ports, sig, iop, cd = _oe_build(case)
+    nl = build_netlist(Fragment.get(m, None), ports=ports, name="top")
+    ev = NirEval(nl)
+    for s_ in (cd.clk, cd.rst):
+        if s_ in nl.signals:
+            ev.set_signal(s_, 0)
+    pidx = {id(p): k for k, p in enumerate(nl.io_ports)}
+    bad = _oe_semantics(case, "nir", ev, sig, iop, cd, pidx, out)
+    if bad:
+        _viol(out, f"net:oe-source:nir:{sigbase}:{bad[0]}", f"{tag}: fine netlist: {bad[1]}", case)
+    m2, ports2, sig2, iop2, cd2 = _oe_build(case)
+    text, _n = rtlil.convert_fragment(Fragment.get(m2, None), ports=ports2, name="top", emit_src=False)
+    _inc(out, "oe_rtlil_texts")
+    try:
+        rv = RtlilEval(parse_rtlil(text), "\\top")
+        bad = _oe_semantics(case, "rtlil", rv, sig2, iop2, cd2, None, out)
+    except Exception as e:      # noqa: BLE001
+        bad = ("malformed", f"the emitted RTLIL cannot be interpreted: {type(e).__name__}: {e}")
+    if bad:
+        _viol(out, f"net:oe-source:rtlil:{sigbase}:{bad[0]}", f"{tag}: RTLIL: {bad[1]}", case)
+
+
+def _oe_semantics(case, which, e, sig, iop, cd, pidx, out):
+    """every (o, pad[, free oe]) valuation: with the enable 0 no pad bit is driven by the design, with the enable 1
+    every bit is driven with o ^ invert (complement half: its negation); i as for any buffer"""
+    kind, w, mask, cls, bufdir, src = case["kind"], case["w"], case["mask"], case["cls"], case["bufdir"], case["oe"]
+    nir = which == "nir"
+    ff = cls == "FFBuffer"
+    if cls == "IOBufferInstance":
+        mask = 0
+    true_half = "io" if kind == "se" else "p"
+    fixed = {"c0": 0, "s0": 0, "c1": 1, "s1": 1}.get(src)
+    if src == "default":      # IOBufferInstance: oe defaults to 1; Buffer/FFBuffer signature: init 1 for Output, 0 for Bidir
+        fixed = 1 if (cls == "IOBufferInstance" or bufdir == "o") else 0
+    regs = {"i": 0, "o": 0, "oe": 0}
+    nval = 0
+    for oe in ((0, 1) if fixed is None else (fixed,)):
+        for o in range(1 << w):
+            for pad in (range(1 << w) if bufdir == "io" else [0]):
+                nval += 1
+                if nir:
+                    e.set_signal(sig["o"], o)
+                    if "oe" in sig:
+                        e.set_signal(sig["oe"], oe)
+                else:
+                    e.set_top("\\s_o", o)
+                    e.set_top("\\s_oe", oe)
+                for j in range(w):
+                    if nir:
+                        e.set_pad(pidx.get(id(iop[true_half])), j, _bit(pad, j))
+                    else:
+                        e.ext[e.find(((), "\\" + iop[true_half].name, j))] = _bit(pad, j)
+                o_eff, oe_eff = (regs["o"], regs["oe"]) if ff else (o, oe)
+                memo = {}
+                drv = e.drivers(memo) if nir else None
+                samp = 0
+                for j in range(w):
+                    inv = (mask >> j) & 1
+                    for h, neg in ((("io", 0),) if kind == "se" else (("p", 0), ("n", 1))):
+                        d = drv.get((pidx.get(id(iop[h])), j), []) if nir else e.pad_drivers("\\" + iop[h].name, j, memo)
+                        active = [v for v, en in d if en]
+                        want = [(_bit(o_eff, j) ^ inv) ^ neg] if oe_eff else []
+                        if active != want or len(d) != 1:
+                            return (f"drive_{h}", f"o={o:0{w}b} enable={oe_eff}{' (registered)' if ff else ''}: port {iop[h].name} bit {j} has drivers "
+                                    f"(value, enable) {d}; active values {active}, want {want} from exactly one driver")
+                    port_in = (_bit(o_eff, j) ^ inv) if oe_eff else _bit(pad, j)
+                    samp |= (port_in ^ inv) << j
+                if bufdir == "io":
+                    got = e.value(e.sig_nets(sig["i"]), memo) if nir else e.top_value("\\s_i", memo)
+                    want_i = regs["i"] if ff else samp
+                    if got != want_i:
+                        return ("i", f"o={o:0{w}b} enable={oe_eff} pad={pad:0{w}b}: i = {got:0{w}b}, want {want_i:0{w}b}")
+                if ff:
+                    e.tick(cd.clk) if nir else e.tick("\\clk")
+                    regs = {"i": samp, "o": o, "oe": oe}
+    _inc(out, "oe_valuations", nval)
+    out["cov"]["evaluations"] += nval
+    return None
+
+
+def oe_cases():
+    cases = []
+    for cls in ("Buffer", "FFBuffer", "IOBufferInstance"):
+        for kind in (("se", "diff") if cls != "IOBufferInstance" else ("se",)):
+            for w in (1, 2):
+                for bufdir in ("o", "io"):
+                    for src in OE_SOURCES:
+                        cases.append({"leg": "oe", "kind": kind, "w": w, "mask": 0b01 if w == 2 else 1, "cls": cls,
+                                      "bufdir": bufdir, "oe": src})
+    return cases
+
+
+def w_oe(cases):
+    warnings.simplefilter("ignore")
+    out = _new_out()
+    for case in cases:
+        oe_case(case, out)
+    return out
+
+
 # --------------------------------------------------------------------------- leg E: vendor get_io_buffer overrides
 VENDOR_PLATFORMS = {
     # name: (attribute of amaranth.vendor, class attributes of a minimal concrete subclass)
@@ -1595,7 +1750,9 @@ def _guarded(fn, prefix):
             inside = [f for f in tb if "/amaranth/" in f.filename]
             if not inside:
                 raise               # a bug of the check itself stays a harness error
-            if "plat" in case:
+            if "oe" in case:
+                ts = f"w{case['w']}:oe={case['oe']}"
+            elif "plat" in case:
                 ts = f"{case['plat']}:w{case['w']}:m{case['mask']:b}"
             elif "wrappers" in case:
                 ts = f"w{case['w']}:{case['place']}:{'>'.join(case['wrappers'])}"
@@ -1615,10 +1772,11 @@ net_case = _guarded(_net_case, "net")
 dirs_case = _guarded(_dirs_case, "net:multi")
 wrap_case = _guarded(_wrap_case, "net:wrapped")
 vendor_case = _guarded(_vendor_case, "vendor")
+oe_case = _guarded(_oe_case, "net:oe-source")
 
 
 # =============================================================================================== driver
-WORKERS = {"A": w_algebra, "Amix": w_algebra_mixed, "B": w_sim, "C": w_ff, "D": w_net, "D2": w_two_buffers, "D3": w_port_dirs, "D4": w_wrap, "E": w_vendor}
+WORKERS = {"A": w_algebra, "Amix": w_algebra_mixed, "B": w_sim, "C": w_ff, "D": w_net, "D2": w_two_buffers, "D3": w_port_dirs, "D4": w_wrap, "E": w_vendor, "D5": w_oe}
 
 
 def _dispatch(t):
@@ -1658,6 +1816,8 @@ def run(rep):
             tasks.append(("D3", (kind, w, rep.quick)))
     for ch in chunks(wrap_cases(rep.quick), 24):
         tasks.append(("D4", ch))
+    for ch in chunks(oe_cases(), 30):
+        tasks.append(("D5", ch))
     for ch in chunks(vendor_cases(), 48):
         tasks.append(("E", ch))
     tasks = rotate(tasks, rep.seed)
@@ -1702,7 +1862,10 @@ def run(rep):
                "FFBuffer (width 1; thorough 1..2) i/o/io on real ports wrapped directly / one / two modules up by EnableInserter, ResetInserter, "
                "DomainRenamer(sync->other) and every nesting of two: netlist and RTLIL, every (o, oe, pad, en/rst) valuation; Buffer behaviour is "
                "independent of the controls, FFBuffer by BFS with an edge of either clock after every valuation against the documented rules "
-               "(enable gates the registers, reset-less registers ignore inserted resets, the renamer moves them to the other clock). E: every platform "
+               "(enable gates the registers, reset-less registers ignore inserted resets, the renamer moves them to the other clock). D5: Buffer / FFBuffer / "
+               "bare IOBufferInstance of direction o and io (width 1..2) with oe taken from: the default, a free signal, Const(0,1), Const(1,1), "
+               "C(2,2)[0], C(2,2)[1]: netlist and RTLIL for every (o, pad[, oe]) valuation: enable 0 -> no pad bit is actively driven (a plain RTLIL "
+               "`connect` onto the port wire counts as an unconditional driver), enable 1 -> every bit driven with o^invert by exactly one driver. E: every platform "
                "overriding get_io_buffer (iCE40, ECP5, MachXO2, Nexus, Xilinx 7-series, Altera, Gowin): Buffer/FFBuffer i/o/io on SingleEnded/Differential "
                "ports of width 1..3 with every inversion mask, lowered through the platform; vendor pad cells are opaque per-bit boxes, registers and "
                "register cells transparent, LUT4 by its INIT: for every (o, oe, pad-cell output) valuation, in netlist and RTLIL, the data reaching the "
@@ -1739,6 +1902,9 @@ def run(rep):
             "wrap_rtlil_texts": "RTLIL texts of wrapped buffers", "wrap_transitions": "wrapped-buffer valuations / edges",
             "vendor_mixed_mask_designs": "vendor lowerings of ports with a mixed inversion mask",
             "vendor_rtlil_texts": "RTLIL texts of vendor lowerings", "vendor_valuations": "vendor lowering valuations",
+            "oe_constant_zero_designs": "o/io buffers whose enable is the constant 0",
+            "oe_constant_one_output_designs": "output buffers whose enable is the constant 1",
+            "oe_rtlil_texts": "RTLIL texts of the oe-source designs", "oe_valuations": "oe-source valuations",
             "two_buffers_conflict": "overlapping two-buffer designs", "two_buffers_disjoint": "disjoint two-buffer designs",
             "ff_states": "FFBuffer product states", "ff_traces_validated": "BFS traces replayed from reset"}
     # a run that already reports violations is not a pass; guards whose counters sit behind a failing step
@@ -1764,6 +1930,8 @@ def replay(payload):
         sim_case(payload, out)
     elif leg == "net":
         net_case(payload, out)
+    elif leg == "oe":
+        oe_case(payload, out)
     elif leg == "vendor":
         vendor_case(payload, out)
     elif leg == "wrap":
